@@ -29,7 +29,7 @@ META = {
     "rule": "case = (sslopt combination, env, server certificate, route); distinct by that tuple; non-trivial when TLS was attempted (every wss case)",
     "exhaustive": {"quick": False, "thorough": True},
     "exhaustive_space": {"thorough": "3 x 3 x 10 x 4 x 7 x 2 x 2 = 10080 combinations (URL host name or IP literal)", "quick": "random sample of 400 combinations + 40 fixed essential ones"},
-    "bounds": "certfile/ciphers/ecdh_curve options not driven; SOCKS proxies absent; TLS backend = the installed OpenSSL",
+    "bounds": "ciphers/ecdh_curve options not driven (certfile: the client-bundle cases only); TLS through SOCKS is covered by C19's stand-in shard only; TLS backend = the installed OpenSSL",
     "required_counters": ["tls_cases", "accept_expected", "reject_expected", "server_records_checked"],
     "assumptions": ["loopback TCP and the openssl CLI are available in the sandbox"],
 }
@@ -37,6 +37,7 @@ META["claim"] += " " + "Also: URL host and server_hostname as IP literals, a cer
 META["claim"] += " " + 'Round 3b: one sslopt dict reused for a later connection after the CA-bundle environment variable changed; upper/mixed-case wss schemes against a real TLS listener (refused, or TLS from the first byte).'
 META["claim"] += " " + 'Round 4: cert_reqs=CERT_OPTIONAL (for a client the same as CERT_REQUIRED); the Host header override next to every certificate (it has no say in whom the certificate must name).'
 META["claim"] += " " + 'Rounds 6-7: cert_reqs=None; legacy ssl_version values (reject direction; no suite without authentication in the context used unless ciphers were configured); a URL host the resolver reports as an alias of another name when asked for the canonical name.'
+META["claim"] += " " + "Round 8: a client certificate bundle (certfile) containing its issuing CA is no trust anchor for the server's chain."
 
 OPENSSL = shutil.which("openssl")
 
